@@ -303,6 +303,11 @@ def select_cases(cases: list[dict[str, Any]], tier: str, seed: int) -> tuple[lis
         cli = full + sorted(rnd.sample(rest, min(10, len(rest)))) + sorted(rnd.sample(some_other, min(10, len(some_other))))
     a = [{"id": i, "c": cases[i]["c"], "expect": cases[i]["expect"]} for i in inproc]
     b = [{"id": CLI_BASE + i, "c": cases[i]["c"], "expect": cases[i]["expect"]} for i in cli]
+    # how the database fails to open: the directory cannot be created / the file is not a database / the file
+    # was written by another schema version (the last two fail AFTER the sqlite connection object exists)
+    for cs in a + b:
+        if cs["c"]["how"] == "DbFails" and cs["c"]["point"] == "DbOpen":
+            cs["dbfail"] = ("blocked", "not-sqlite", "other-version")[cs["id"] % 3]
     if tier == "thorough":
         for cs in b:  # the default `--ping` (0.5 s each) only where it is affordable
             c = cs["c"]
